@@ -19,7 +19,7 @@ VH_C12 = os.path.join(HARNESS, "target", "release", "vh_c12")
 def o_swallowed(prog, lines):
     bad = []
     for e in executions(lines):
-        if any(l.startswith("O ") and l.endswith(" panicking") for l in e["lines"]) and not (e["end"] or "").startswith("E fail"):
+        if any(l == "P panic" or (l.startswith("O ") and l.endswith(" panicking")) for l in e["lines"]) and not (e["end"] or "").startswith("E fail"):
             bad.append(("a task panicked but the execution did not fail: the panic was swallowed "
                         "(the step bound was reached while the panicking task was suspended in its unwinding)", "C12:panic-swallowed"))
     return bad
